@@ -52,29 +52,44 @@ Record pobs := mkpobs { po_got : option N; po_pool : list (url * N); po_shut : l
 Record cnt := mkcnt { cn_url : url; cn_begun : N; cn_ended : N }.
 Inductive sstep := SCall (u : option url) | SSetTable (urls : list url) | STick.
 
+(* who served a call, as far as the harness can see: a backend's handler ran; nobody was
+   contacted; nobody was contacted and the proxy answered Unavailable (the matched route's
+   target cannot be reached: which one it was is decided by the model, at most one per route) *)
+Inductive hchosen := HBackend (u : url) | HNobody | HUnreachable.
+Inductive hstep := HCall (m : md) (upath : option str) (c : hchosen) | HSetTable (t : table) | HTick.
+
 Inductive case :=
 (* GrpcProxyInterceptor.lookup on the live table [t] *)
 | CLookup (t : table) (noglob : bool) (m : option md) (upath : option str) (impl : lres)
 (* a history on the real pool from the empty pool and a table with targets [urls0];
    after every operation: connection returned, pool contents, connections in Shutdown *)
-| CPool (urls0 : list url) (ops : list pop) (obs : list pobs) (final_shut : list N)
-(* one call through the proxy: backend reached and what it saw, what the caller saw *)
-| CCall (t : table) (noglob : bool) (ci : callin) (chosen : option url) (bv : option bview) (cv : cview)
-(* the calls of one proxy as a history, with table changes and real cleanup ticks:
-   connections begun / ended at each backend after every step *)
-| CSession (steps : list sstep) (obs : list (list cnt))
+| CPool (urls0 : list url) (ops : list pop2) (obs : list pobs) (final_shut : list N)
+(* one call through the real newGrpcProxy + ListenAndServeGRPC ([tls_listener]: the listener
+   has a tls.Config; [down]: targets nobody listens at): backend reached and what it saw,
+   what the caller saw *)
+| CCall (t : table) (noglob tls_listener : bool) (down : list url) (ci : callin) (chosen : hchosen)
+        (bv : option bview) (cv : cview)
+(* the calls of that proxy as ONE history, with table changes and the real cleanup ticks,
+   evaluated through the history machine of the theorems ([run]): connections begun / ended at
+   each live backend after every step *)
+| CHistory (noglob tls_listener : bool) (down : list url) (steps : list hstep) (obs : list (list cnt))
 (* one unary call through a server built by the real newGrpcProxy with limits [rx]/[tx]:
    request of [req] bytes, scripted response of [resp] bytes; did the backend receive the
    request byte for byte, did the caller receive the response byte for byte, status code *)
 | CLimit (rx tx req resp : N) (backend_got caller_got : bool) (code : N).
 
 (* ---- CPool ---- *)
-Fixpoint pool_same (st : list url * pstate) (ops : list pop) (obs : list pobs) : bool :=
+Fixpoint pool_same (st : list url * pstate) (ops : list pop2) (obs : list pobs) : bool :=
   match ops, obs with
   | [], [] => true
   | o :: ro, b :: rb =>
-      let st' := p_step st o in
-      let got := match o with PGet u => Some (snd (p_get (snd st) u)) | _ => None end in
+      let st' := p_step2 st o in
+      let got := match o with
+                 | P1 (PGet u) => Some (snd (p_get (snd st) u))
+                 | PDial u => Some (snd (p_log_dial (snd st) u))
+                 | PSetIfAbsent u c => Some (snd (p_set_if_absent (snd st) u c))
+                 | _ => None
+                 end in
       opt_eqb N.eqb got (po_got b)
       && pool_eqb (p_pool (snd st')) (po_pool b)
       && setN_eqb (p_shut (snd st')) (po_shut b)
@@ -85,12 +100,25 @@ Fixpoint pool_same (st : list url * pstate) (ops : list pop) (obs : list pobs) :
 (* the property on the observations alone: a live pooled connection is the one handed out;
    after a tick nothing unrouted or shut down is pooled, what left the pool is closed, and
    routed live connections are still there; nothing else touches the pool *)
-Fixpoint pool_spec (urls : list url) (prev : pobs) (ops : list pop) (obs : list pobs) : bool :=
+Fixpoint pool_spec (urls : list url) (prev : pobs) (ops : list pop2) (obs : list pobs) : bool :=
   match ops, obs with
   | [], [] => true
   | o :: ro, b :: rb =>
       (match o with
-       | PGet u =>
+       | PSetIfAbsent u c =>
+           (* a caller arriving at the store with its own connection: if another live one is
+              pooled it gets that one and its own is closed; otherwise its own is pooled *)
+           match po_got b with
+           | None => false
+           | Some g =>
+               match assoc u (po_pool prev) with
+               | Some cur => if negb (cur =? c) && negb (memN cur (po_shut prev))
+                             then (g =? cur) && pool_eqb (po_pool prev) (po_pool b) && memN c (po_shut b)
+                             else (g =? c) && pool_has (po_pool b) (u, c)
+               | None => (g =? c) && pool_has (po_pool b) (u, c)
+               end
+           end
+       | P1 (PGet u) =>
            match po_got b with
            | None => false
            | Some g =>
@@ -100,37 +128,66 @@ Fixpoint pool_spec (urls : list url) (prev : pobs) (ops : list pop) (obs : list 
                end
                && pool_has (po_pool b) (u, g)
            end
-       | PTick =>
+       | P1 PTick =>
            forallb (fun kc => mem (fst kc) urls && negb (memN (snd kc) (po_shut b))) (po_pool b)
            && forallb (fun kc => pool_has (po_pool b) kc || memN (snd kc) (po_shut b)) (po_pool prev)
            && forallb (fun kc => implb (mem (fst kc) urls && negb (memN (snd kc) (po_shut prev)))
                                        (pool_has (po_pool b) kc)) (po_pool prev)
        | _ => pool_eqb (po_pool prev) (po_pool b)
        end)
-      && pool_spec (match o with PSetTable t => t | _ => urls end) b ro rb
+      && pool_spec (match o with P1 (PSetTable t) => t | _ => urls end) b ro rb
   | _, _ => false
   end.
 
-Definition is_get (o : pop) : bool := match o with PGet _ => true | _ => false end.
-Definition is_tick (o : pop) : bool := match o with PTick => true | _ => false end.
+Definition is_get (o : pop2) : bool := match o with P1 (PGet _) => true | PSetIfAbsent _ _ => true | _ => false end.
+Definition is_tick (o : pop2) : bool := match o with P1 PTick => true | PSetIfAbsent _ _ => true | _ => false end.
 
-(* ---- CSession ---- *)
-Definition sstep_pop (s : sstep) : list pop :=
-  match s with
-  | SCall (Some u) => [PGet u]
-  | SCall None => []
-  | SSetTable t => [PSetTable t]
-  | STick => [PTick]
+(* ---- CHistory: through [run], the machine the pool theorems are about ---- *)
+Fixpoint index_of (u : url) (l : list url) : option nat :=
+  match l with
+  | [] => None
+  | x :: r => if beq u x then Some 0%nat else option_map S (index_of u r)
   end.
-Fixpoint sess_same (st : list url * pstate) (steps : list sstep) (obs : list (list cnt)) : bool :=
+(* the operations a step resolves to in state [s]; None: the observation is impossible for the model *)
+Definition hist_ops (ng tl : bool) (down : list url) (s : state) (st : hstep) : option (list op) :=
+  match st with
+  | HSetTable t => Some [SetTable t]
+  | HTick => Some [CleanupTick]
+  | HCall m None c => match c with HNobody => Some [] | _ => None end
+  | HCall m (Some p) c =>
+      match lookup (s_tbl s) ng (dsthost m) p, c with
+      | None, HNobody => Some []
+      | Some ts, HBackend u =>
+          if unreachable tl down u then None
+          else match index_of u ts with Some k => Some [Call m p k] | None => None end
+      | Some ts, HUnreachable =>
+          match filter (unreachable tl down) ts with
+          | [u] => match index_of u ts with Some k => Some [Call m p k] | None => None end
+          | _ => None
+          end
+      | _, _ => None
+      end
+  end.
+Fixpoint hist_same (ng tl : bool) (down : list url) (s : state) (steps : list hstep) (obs : list (list cnt)) : bool :=
   match steps, obs with
   | [], [] => true
-  | s :: rs, b :: rb =>
-      let st' := p_run st (sstep_pop s) in
-      forallb (fun c => (cn_begun c =? count_dials (snd st') (cn_url c))
-                        && (cn_ended c =? count_closed (snd st') (cn_url c))) b
-      && sess_same st' rs rb
+  | st :: rs, b :: rb =>
+      match hist_ops ng tl down s st with
+      | None => false
+      | Some ops =>
+          let s' := run ng s ops in
+          forallb (fun c => (cn_begun c =? count_dials (s_pool s') (cn_url c))
+                            && (cn_ended c =? count_closed (s_pool s') (cn_url c))) b
+          && hist_same ng tl down s' rs rb
+      end
   | _, _ => false
+  end.
+Definition hstep_sstep (st : hstep) : sstep :=
+  match st with
+  | HCall _ _ (HBackend u) => SCall (Some u)
+  | HCall _ _ _ => SCall None
+  | HSetTable t => SSetTable (table_urls t)
+  | HTick => STick
   end.
 
 Definition cnt_of (b : list cnt) (u : url) : N * N :=
@@ -163,9 +220,14 @@ Fixpoint sess_spec (urls : list url) (prev : list cnt) (steps : list sstep) (obs
   end.
 
 (* ---- CCall ---- *)
-Definition expected_cview (sc : script) : cview :=
-  mkcview (match sc_msgs sc with [] => [] | _ => sc_hdr sc end) (sc_msgs sc) (sc_trl sc) (sc_code sc)
-          (if sc_code sc =? 0 then [] else sc_msg sc).
+(* the property's clause on the two views: everything the backend scripted arrives; its
+   headers are owed only when it sends at least one message *)
+Definition cview_transparent (sc : script) (cv : cview) : bool :=
+  (match sc_msgs sc with [] => true | _ => md_eqb (cv_hdr cv) (sc_hdr sc) end)
+  && msgs_eqb (cv_msgs cv) (sc_msgs sc) && md_eqb (cv_trl cv) (sc_trl sc)
+  && (cv_code cv =? sc_code sc) && ((sc_code sc =? 0) || beq (cv_msg cv) (sc_msg sc)).
+Definition no_msgs (cv : cview) : bool := match cv_msgs cv with [] => true | _ => false end.
+Definition table_has_grpcs (t : table) : bool := existsb (fun u => has_prefix u s_grpcs) (table_urls t).
 
 Definition check_case (c : case) : N :=
   match c with
@@ -192,44 +254,62 @@ Definition check_case (c : case) : N :=
       verdict same spec None nontriv
   | CPool urls0 ops obs final_shut =>
       let same := pool_same (urls0, p_init) ops obs
-                  && setN_eqb (p_shut (snd (p_run (urls0, p_init) ops))) final_shut in
+                  && setN_eqb (p_shut (snd (p_run2 (urls0, p_init) ops))) final_shut in
       let spec := pool_spec urls0 (mkpobs None [] []) ops obs in
       verdict same spec None (existsb is_get ops && existsb is_tick ops)
-  | CCall t noglob ci chosen bv cv =>
+  | CCall t noglob tl down ci chosen bv cv =>
       if negb (table_domain t) then v_disagree else
       let (mb, mc) := call_outcome t noglob ci in
-      let same := match mb, chosen, bv with
-                  | Some (ts, b), Some u, Some b' => mem u ts && bview_eqb b b'
-                  | None, None, None => true
-                  | _, _, _ => false
-                  end && cview_eqb mc cv in
       let sc := ci_script ci in
-      let spec := match chosen, bv, ci_upath ci with
-                  | Some u, Some b', Some p =>
-                      host_domain (dsthost (ci_md ci)) && routed_ok t noglob (dsthost (ci_md ci)) p u
-                      && bview_eqb b' (mkbview (ci_method ci) (ci_md ci) (if sc_mode sc =? 2 then [] else ci_msgs ci))
-                      && cview_eqb cv (expected_cview sc)
-                  | None, None, Some p =>
-                      host_domain (dsthost (ci_md ci)) && unrouted_ok t noglob (dsthost (ci_md ci)) p
-                      && (cv_code cv =? code_not_found) && beq (cv_msg cv) (bs "no route found")
-                      && match cv_msgs cv with [] => true | _ => false end
-                  | None, None, None => cv_code cv =? code_internal
-                  | _, _, _ => false
-                  end in
-      verdict same spec None (match chosen with Some _ => true | None => negb (match t with [] => true | _ => false end) end)
+      let host := dsthost (ci_md ci) in
+      let same :=
+        match mb, chosen, bv with
+        | None, HNobody, None => cview_eqb mc cv
+        | Some (ts, b), HBackend u, Some b' =>
+            mem u ts && negb (unreachable tl down u) && bview_eqb b b' && cview_eqb mc cv
+        | Some (ts, _), HUnreachable, None =>
+            match filter (unreachable tl down) ts with
+            | [_] => (cv_code cv =? code_unavailable) && no_msgs cv
+            | _ => false
+            end
+        | _, _, _ => false
+        end in
+      let spec :=
+        match chosen, bv, ci_upath ci with
+        | HBackend u, Some b', Some p =>
+            host_domain host && routed_ok t noglob host p u
+            && beq (bv_method b') (ci_method ci) && md_eqb (bv_md b') (md_out (ci_md ci))
+            && msgs_eqb (bv_msgs b') (if sc_mode sc =? 2 then [] else ci_msgs ci)
+            && cview_transparent sc cv
+        | HUnreachable, None, Some p =>
+            (* a failed call is all one can ask for when the route's backend is down; a
+               reachable TLS backend dialled without TLS is a call the property wants relayed *)
+            host_domain host && negb (cv_code cv =? 0)
+            && existsb (fun u => mem u down && routed_ok t noglob host p u) (table_urls t)
+        | HNobody, None, Some p =>
+            host_domain host && unrouted_ok t noglob host p
+            && (cv_code cv =? code_not_found) && no_msgs cv
+        | HNobody, None, None => true      (* not a gRPC method path: outside the property (see checks/C16.json) *)
+        | _, _, _ => false
+        end in
+      let region := if negb tl && table_has_grpcs t then Some 2 else None in
+      verdict same spec region (match chosen with HNobody => negb (match t with [] => true | _ => false end) | _ => true end)
   | CLimit rx tx req resp bg cg code =>
       let m := relay_sized rx tx req resp in
       let same := Bool.eqb bg (sz_backend_got m) && Bool.eqb cg (sz_caller_got m) && (code =? sz_code m) in
-      let spec := Bool.eqb bg (req <=? rx)
-                  && Bool.eqb cg ((req <=? rx) && (resp <=? tx) && (resp <=? rx))
-                  && Bool.eqb (code =? 0) cg in
+      (* the property does not speak about limits: what is within every configured limit must
+         be relayed; which limit applies to which direction is the model's business ([same]) *)
+      let lim := N.min rx tx in
+      let spec := implb ((req <=? lim) && (resp <=? lim)) (bg && cg && (code =? 0)) in
       let between := fun x => ((N.min rx tx <? x) && (x <=? N.max rx tx)) in
       verdict same spec None (negb (rx =? tx) && (between req || between resp))
-  | CSession steps obs =>
-      let same := sess_same ([], p_init) steps obs in
+  | CHistory ng tl down steps obs =>
+      if negb (forallb (fun st => match st with HSetTable t => table_domain t | _ => true end) steps) then v_disagree else
+      let same := hist_same ng tl down (mks [] p_init) steps obs in
+      let ss := map hstep_sstep steps in
       let spec := match obs with
                   | [] => true
-                  | b0 :: _ => sess_spec [] (map (fun c => mkcnt (cn_url c) 0 0) b0) steps obs
+                  | b0 :: _ => sess_spec [] (map (fun c => mkcnt (cn_url c) 0 0) b0) ss obs
                   end in
       verdict same spec None true
   end.
